@@ -156,8 +156,31 @@ func isNilIdent(info *types.Info, e ast.Expr) bool {
 	if !ok {
 		return false
 	}
-	_, isNil := info.Uses[id].(*types.Nil)
-	return isNil
+	if _, isNil := info.Uses[id].(*types.Nil); isNil {
+		return true
+	}
+	// the nil of a guard synthesised from a type switch (`case nil:`)
+	return synthNil[id]
+}
+
+// synthNil marks identifiers created by guardsOf for `case nil` clauses.
+var synthNil = map[*ast.Ident]bool{}
+
+// typeSwitchOperand returns X of `switch [v :=] X.(type)`.
+func typeSwitchOperand(ts *ast.TypeSwitchStmt) ast.Expr {
+	var e ast.Expr
+	switch a := ts.Assign.(type) {
+	case *ast.ExprStmt:
+		e = a.X
+	case *ast.AssignStmt:
+		if len(a.Rhs) == 1 {
+			e = a.Rhs[0]
+		}
+	}
+	if ta, ok := ast.Unparen(e).(*ast.TypeAssertExpr); ok {
+		return ta.X
+	}
+	return nil
 }
 
 // fieldSel reports whether e is a selector of the named field of a struct
@@ -451,4 +474,61 @@ func (c *Ctx) rootHandler(t *core.Func) *ast.FuncLit {
 		all = append(all, bodies[i]...)
 	}
 	return &ast.FuncLit{Type: &ast.FuncType{}, Body: &ast.BlockStmt{List: all}}
+}
+
+// cancelPredicate reports whether g is a function whose whole body is the
+// non-blocking question "is this channel closed?":
+//
+//	select { case <-x.ch: return true; default: return false }
+//
+// for the given channel field.
+func cancelPredicate(g *core.Func, ch *types.Var) bool {
+	if g == nil || g.Decl == nil || g.Body == nil || len(g.Body.List) != 1 || ch == nil {
+		return false
+	}
+	sel, ok := g.Body.List[0].(*ast.SelectStmt)
+	if !ok || len(sel.Body.List) != 2 {
+		return false
+	}
+	info := g.Info()
+	okRecv, okDflt := false, false
+	for _, st := range sel.Body.List {
+		cc := st.(*ast.CommClause)
+		if len(cc.Body) != 1 {
+			return false
+		}
+		ret, isRet := cc.Body[0].(*ast.ReturnStmt)
+		if !isRet || len(ret.Results) != 1 {
+			return false
+		}
+		tv, has := info.Types[ret.Results[0]]
+		if !has || tv.Value == nil {
+			return false
+		}
+		if cc.Comm == nil {
+			okDflt = tv.Value.String() == "false"
+		} else if recvFrom(info, cc.Comm, ch) {
+			okRecv = tv.Value.String() == "true"
+		}
+	}
+	return okRecv && okDflt
+}
+
+// callsCancelPredicate reports whether e is (possibly negated) a call of a
+// cancelPredicate for ch; neg tells whether it is negated.
+func (c *Ctx) callsCancelPredicate(info *types.Info, e ast.Expr, ch *types.Var) (is, neg bool) {
+	e = ast.Unparen(e)
+	if u, ok := e.(*ast.UnaryExpr); ok && u.Op == token.NOT {
+		is, neg = c.callsCancelPredicate(info, u.X, ch)
+		return is, !neg
+	}
+	call, ok := e.(*ast.CallExpr)
+	if !ok {
+		return false, false
+	}
+	fo := core.StaticCallee(info, call)
+	if fo == nil {
+		return false, false
+	}
+	return cancelPredicate(c.P.FuncOf(fo), ch), false
 }
